@@ -143,4 +143,6 @@ def run(res, facts, tier):
     r1_twins(res, facts)
     r2_indent_writer(res, facts)
     r3_html_table(res, facts)
-    res.assume('C08: the indentation state machine, META insertion and tree equality of the outputs are behavioural and not decided')
+    from . import c08_indent
+    c08_indent.run(res, facts, tier)
+    res.assume('C08: the indentation of the HTML and legacy FormatterToXML serializers, META insertion and tree equality of the outputs are behavioural and not decided')
